@@ -191,9 +191,9 @@ func C18(tier Tier) int {
 	const P = "C18"
 	activations := []uint32{0, 1, 2, 3, 1 << 31, 1<<32 - 1}
 	epochs := []uint32{0, 1, 2, 3, 4, 1 << 31, 1<<32 - 1}
-	L := 4
+	L := 5
 	if tier.Thorough() {
-		L = 6
+		L = 7
 	}
 	ws := make([]*Enum, NumWorkers())
 	for i := range ws {
